@@ -199,6 +199,9 @@ def hidden_state(P):
     sc = P._solver_cache
     if isinstance(sc, dict):
         out.append(("solver_cache_keys", tuple(sorted(sc))))
+        # ... and the SHAPE of every cached entry (a list that one method's branch extended is another state)
+        out.append(("solver_cache_shape", tuple((k, type(v).__name__, len(v) if isinstance(v, (list, tuple, dict)) else None)
+                                                for k, v in sorted(sc.items()))))
     return tuple(out)
 
 
@@ -212,7 +215,7 @@ class Driver:
         out = []
         for op in self.menu:
             k = op[0]
-            if k == "st" and len(model["cons"]) + 1 > self.max_cons:
+            if k in ("st", "stbad") and len(model["cons"]) + 1 > self.max_cons:
                 continue
             if k == "stl" and len(model["cons"]) + 2 > self.max_cons:
                 continue
@@ -252,6 +255,19 @@ class Driver:
                 P.subject_to(cons[op[1]]())
             elif k == "stl":
                 P.subject_to([cons[c]() for c in op[1]])
+            elif k == "stbad":
+                # a REJECTED edit: a list whose second element is not a constraint.  Whatever the call leaves listed in
+                # P.constraints is the current model (the reference is built from what the problem itself lists)
+                before = len(P.constraints)
+                try:
+                    P.subject_to([cons[op[1]](), "not-a-constraint"])
+                    fails.add("invalid-constraint-accepted", op=op)
+                except Exception:
+                    pass
+                if len(P.constraints) == before + 1:
+                    m["cons"] = m["cons"] + (op[1],)
+                elif len(P.constraints) != before:
+                    fails.add("rejected-edit-left-unexpected-constraints", before=before, after=len(P.constraints))
             elif k == "xub":
                 x.ub = op[1]
             elif k == "ylb":
@@ -344,6 +360,13 @@ DRIVERS = {
     "method-order": dict(roots=[(("max", "Q"),), (("max", "N"), ("st", "c1")), (("min", "N"),)],
                          menu=[S("Nelder-Mead"), S("COBYLA"), S("Powell"), S("L-BFGS-B"), S("SLSQP"), S("trust-constr"), S("auto"),
                                ("max", "Q"), ("read",)], depth=None),
+    # method-specific branches of the solver (derivative-free methods take their own paths) followed by bound edits made
+    # on the Variable objects only, and a solve with another method
+    "method-branches": dict(roots=[(("min", "Q"),)],
+                            menu=[S("COBYLA"), S("Nelder-Mead"), S("SLSQP"), ("xub", 4.0), ("xub", 2.0), ("ylb", 1.0), ("read",)], depth=None),
+    # edits that are REJECTED half-way (a list with an invalid element) on cold and warm problems
+    "rejected-edit": dict(roots=[(("min", "Q"),), (("max", "L2"),)],
+                          menu=[("stbad", "c1"), ("stbad", "c4"), ("st", "c3"), S("auto"), S("SLSQP"), S("highs"), ("read",)], depth=None),
     "variable-set": dict(roots=[(("st", "c1"), ("st", "c3"))],
                          menu=[("max", "La"), ("max", "Lz"), ("min", "Laz"), ("min", "L1"), ("min", "Qz"), S("auto"), S("SLSQP"),
                                ("read",)], depth=None),
